@@ -10,7 +10,7 @@ def fifo_seq_vectors(tier):
     for n in range(1, maxn + 1):
         for ctx in (0, 1):
             for st in itertools.product(range(5), repeat=n + 1):
-                if tier == 'quick' and n == 3 and (sum(st) + ctx) % 3 != 0: continue     # every third style combination at n=3
+                if tier == 'quick' and n == 3 and (sum(st) + ctx) % 6 != 0: continue     # every sixth style combination at n=3
                 out.append([n - 1, ctx] + list(st))
     return out
 
@@ -19,7 +19,7 @@ def plan(tier):
     units = [dict(engine='e1', name='fifo_seq', tu='C08.cpp', entry='h_fifo', unwind=8, vectors=fifo_seq_vectors(tier),
                   concrete=[([1, 0, 0, 1, 2], []), ([2, 1, 2, 0, 3, 4], []), ([0, 0, 4, 4], []), ([3, 0, 1, 2, 3, 0, 1], [])],
                   space='N waiting coroutines (arrival order = creation order) x release style of the initial owner and of every waiter '
-                        '{ownership destructor, release() discarded, co_await release(), release()+clear(), try_lock probe} x release from normal code / from inside a coroutine',
+                        '{ownership destructor, release() discarded, co_await release(), release()+clear(), try_lock probe} x release from normal code / from inside a coroutine' + ('; quick tier: N <= 2 full product, N = 3 every sixth style combination' if tier == 'quick' else '; full product'),
                   data='none (the quantifier is the history)', bounds='N <= %d waiters' % (3 if tier == 'quick' else 4),
                   outside='releases from other threads / through a thread pool (E2 scenarios and C11)')]
     lv = []
